@@ -8,8 +8,8 @@ wt=/tmp/vw-$$
 git -C /repo worktree add -q $wt HEAD || exit 3
 trap "git -C /repo worktree remove --force $wt" EXIT
 if ! git -C $wt apply $dir/patch.diff; then echo "PATCH-DOES-NOT-APPLY"; exit 3; fi
-echo "== demo on unchanged tree:"; (cd $dir && PYTHONPATH=/repo/src timeout 300 /venv/bin/python demo.py 2>&1 | tail -2); echo "rc=$?"
-echo "== demo on patched tree:"; (cd $dir && PYTHONPATH=$wt/src timeout 300 /venv/bin/python demo.py 2>&1 | tail -3); echo "rc=$?"
+echo "== demo on unchanged tree:"; (cd $dir && PYTHONPATH=/repo/src timeout 300 /venv/bin/python demo.py > /tmp/seed-demo-$$.out 2>&1; echo "demo_rc_unchanged=$?"; tail -2 /tmp/seed-demo-$$.out)
+echo "== demo on patched tree:"; (cd $dir && PYTHONPATH=$wt/src timeout 300 /venv/bin/python demo.py > /tmp/seed-demo-$$.out 2>&1; echo "demo_rc_patched=$?"; tail -3 /tmp/seed-demo-$$.out); rm -f /tmp/seed-demo-$$.out
 if [ -n "$suite" ]; then
   echo "== pinned suite on patched tree:"
   (cd $wt && PYTHONPATH=$wt/src timeout 2400 /venv/bin/python -m pytest -ra -q -p no:cacheprovider --timeout=900 --continue-on-collection-errors --junitxml=/tmp/seed-$$.xml > /tmp/seed-$$.log 2>&1
